@@ -76,6 +76,11 @@ Theorem C10_abandoned_iteration_leaves_nothing {T} {N : Num T} (s : ost T) :
   (forall q q', ref_drop (upd_skipq s q) = ref_drop (upd_skipq s q')).
 Proof. exact (conj (drop_is_ref s) (conj (drop_post s) (conj (drop_clean_noop s) (stale_signals_irrelevant s)))). Qed.
 
+Theorem C10_after_cleanup_as_from_clean_queue {T} {N : Num T} (s : ost T) (q : list bool) (ops : list (@op T)) :
+  run ops (ref_drop (upd_skipq s q)) = run ops (ref_drop (upd_skipq s [])).
+Proof. exact (after_cleanup_as_from_clean_queue s q ops). Qed.
+
 Print Assumptions C10_bmm_refines_unsplit.
 Print Assumptions C10_ghost_backward_is_generated.
 Print Assumptions C10_abandoned_iteration_leaves_nothing.
+Print Assumptions C10_after_cleanup_as_from_clean_queue.
